@@ -110,7 +110,7 @@ func cloneOf(a any) any {
 
 // genTreeFor draws a tree with the size profile used by the text-format monitors.
 func genTreeFor(r *rng.R) *spec.Spec {
-	o := spec.Opts{MaxDepth: r.Range(1, 5), MaxWidth: r.Range(1, 7), ScalarBias: r.Range(5, 8)}
+	o := spec.Opts{MaxDepth: r.Range(1, 5), MaxWidth: r.Range(1, 7), ScalarBias: r.Range(5, 8), Wide: true}
 	return spec.GenTree(r, o)
 }
 
